@@ -54,7 +54,10 @@ def mimic_function[**Args, Result](
             except AttributeError:
                 pass
         try:
-            target.__dict__.update(function.__dict__)
+            # never override what the wrapper already defines on its own, when wrapping an object
+            # based wrapper its attributes (i.e. wrapped function or configuration) would replace ours
+            for key, value in function.__dict__.items():
+                target.__dict__.setdefault(key, value)
 
         except AttributeError:
             pass
